@@ -106,6 +106,9 @@ func recacheAggregatorContext(ctx sdk.Context, agc *aggregator.AggregatorContext
 		p = recentParamsMap[prev]
 		agc.SetParams(p)
 		setCommonParams(p)
+		// there is no block to replay, but the rounds that EndBlock of the previous block
+		// prepared for the current block still have to be rebuilt
+		agc.PrepareRoundEndBlock(uint64(to - 1))
 	} else {
 		prev := int64(0)
 		for ; from < to; from++ {
